@@ -7,6 +7,7 @@ import (
 	"math/rand"
 	"reflect"
 	"strings"
+	"time"
 )
 
 // TypeOpts steers RandStruct.
@@ -24,6 +25,7 @@ type TypeOpts struct {
 	SliceOfSlice    bool
 	Tag             func(rng *rand.Rand, depth int, name string, ft reflect.Type) reflect.StructTag
 	ContainerOfLeaf bool // allow containers of leaf types (not only of structs)
+	Time            bool // time.Time / *time.Time fields (never validated by the library)
 }
 
 var (
@@ -41,6 +43,7 @@ var (
 	TUint64  = reflect.TypeOf(uint64(0))
 	TFloat32 = reflect.TypeOf(float32(0))
 	TFloat64 = reflect.TypeOf(float64(0))
+	TTime    = reflect.TypeOf(time.Time{})
 
 	Ints    = []reflect.Type{TInt, TInt8, TInt16, TInt32, TInt64}
 	Uints   = []reflect.Type{TUint, TUint8, TUint16, TUint32, TUint64}
@@ -81,7 +84,15 @@ func randStruct(rng *rand.Rand, o TypeOpts, depth int) reflect.Type {
 }
 
 func randFieldType(rng *rand.Rand, o TypeOpts, depth int) reflect.Type {
-	leaf := func() reflect.Type { return o.Leaf[rng.Intn(len(o.Leaf))] }
+	leaf := func() reflect.Type {
+		if o.Time && rng.Intn(12) == 0 {
+			if rng.Intn(3) == 0 {
+				return reflect.PointerTo(TTime)
+			}
+			return TTime
+		}
+		return o.Leaf[rng.Intn(len(o.Leaf))]
+	}
 	if depth >= o.MaxDepth {
 		if o.ContainerOfLeaf && o.Slices && rng.Intn(5) == 0 {
 			return reflect.SliceOf(leaf())
@@ -149,6 +160,8 @@ type ValueOpts struct {
 	Float    func(rng *rand.Rand, bits int) float64           // float generator
 	Leaf     func(rng *rand.Rand, t reflect.Type, tag reflect.StructTag) (reflect.Value, bool) // optional override per leaf
 	NilElems bool                                             // allow nil pointers inside slices / maps
+	MaxStructDepth int                                        // structs nested deeper than this stay zero (0 = no limit)
+	depth          int
 }
 
 // Fill returns a random value of type t.
@@ -171,6 +184,10 @@ func fill(rng *rand.Rand, v reflect.Value, o ValueOpts, tag reflect.StructTag, t
 	}
 	switch t.Kind() {
 	case reflect.Struct:
+		if o.MaxStructDepth > 0 && o.depth >= o.MaxStructDepth {
+			return
+		}
+		o.depth++ // o is passed by value: the counter follows the nesting
 		for i := 0; i < t.NumField(); i++ {
 			f := t.Field(i)
 			if f.PkgPath != "" {
